@@ -51,6 +51,8 @@ mod seglog;
 mod store;
 mod sys;
 mod task;
+#[cfg(nomt_verif)]
+pub mod verif_hook;
 
 mod io;
 
